@@ -197,6 +197,15 @@ V_HARNESS(h_fmt_row)
 #endif
     CPMEM.raw_flat[FMT_ROW * 40 + c] = tx[c];
   }
+#ifdef FMT_PREV_PLAN
+  /* start-of-row defaults (EN 300 706 12.2: every row starts white on black, steady, normal size, contiguous mosaics, unboxed, not concealed,
+     release, first G0): the row ABOVE the row under test is a concrete row that leaves every one of these attributes in its non-default state
+     at its end; the reference of the row under test is computed from the row alone */
+  { static const uint8_t prev[40] = { 0x11, 0x1A, 0x35, 0x1E, 0x18, 0x08, 0x1D, 0x0B, 0x0B, 0x1B, 0x16, 0x7F, 0x6A, 0x1A, 0x2B, 0x1E, 0x12, 0x1D, 0x15, 0x3F,
+                                      0x08, 0x18, 0x1B, 0x14, 0x1A, 0x7E, 0x1E, 0x13, 0x1D, 0x17, 0x1A, 0x55, 0x2A, 0x1E, 0x16, 0x08, 0x18, 0x0B, 0x0B, 0x75 };
+    typedef char fmt_prev_check[(FMT_ROW) >= 2 ? 1 : -1];
+    for (c = 0; c < 40; c++) CPMEM.raw_flat[(FMT_ROW - 1) * 40 + c] = (uint8_t) ref_par8(prev[c]); }
+#endif
 #if FMT_ROW == 0
   { typedef char fmt_window_check[(FMT_FIRST) >= 8 ? 1 : -1]; }
 #endif
@@ -268,8 +277,10 @@ V_HARNESS(h_fmt_row)
   V_ASSERT(!R.dh_code && !R.dh_cell, "harness_no_dh_in_last_rows");
   V_ASSERT(frame_ok(FMT_ROW), "fmt_frame");
   /* the neighbouring row transmitted spaces only */
+#ifndef FMT_PREV_PLAN
   for (c = 0; c < 40 && FMT_ROW > 1; c++) { vbi_char a = PG.text[(FMT_ROW > 1 ? FMT_ROW - 1 : 1) * 41 + c];
     V_ASSERT(a.unicode == 0x0020 && a.foreground == 7 && a.background == 0 && a.size == VBI_NORMAL_SIZE && !a.flash && !a.conceal && a.opacity == page_op, "fmt_other_row_unaffected"); }
+#endif
 #endif
   if (R.saw_held) V_REACH("held_mosaic");
   if (R.saw_box) V_REACH("boxed");
